@@ -107,7 +107,8 @@ Definition do_call (maxconns : nat) (reset lifo : bool) (d : dst) (t : nat) (o :
   | None => (d, [OUTOFMODEL])
   | Some s1 =>
       if sc_wfail sc then let s2 := try_step s1 (LFail t OErr) in (mkD s2 ts (d_rd d), call_obs s2 ts t) else
-      let s2 := try_step s1 (LWrite t reset) in
+      (* sync.Pool hands back a pooled reader if there is one (which one is unobservable) *)
+      let s2 := try_step s1 (LWrite t reset (match s_rfree s1 with [] => None | _ :: _ => Some 0 end)) in
       (* the scripted server delivers whatever it was holding back on this connection, then reads the request *)
       let s2 := srv_sends s2 (HeldBy t) 64 in
       let s3 := try_step s2 (LSrvRead (HeldBy t) (sc_resp sc)) in
